@@ -52,16 +52,12 @@ Definition FUEL := 64.
 Fixpoint clean (comps : path) (acc : path) : path :=
   match comps with [] => acc | 0 :: r => clean r acc | 1 :: r => clean r (removelast acc) | c :: r => clean r (acc ++ [c]) end.
 
-(* internal.Confine: the real location of the entry's directory must lie in the destination; optionally the entry itself must not be a symbolic link *)
-Definition confine (root : path) (f : fs) (p : path) (no_follow : bool) : bool :=
-  match walk FUEL f [] (parent p) true with
-  | Reached cur rest =>
-    is_prefix root (cur ++ rest) &&
-    (if no_follow then match walk FUEL f [] p false with Reached q [] => match look f q with Some (NSym _ _) => false | _ => true end | _ => true end else true)
-  | _ => false
-  end.
+(* Every operation names an entry by a clean absolute path p = dir ++ [c]. The kernel resolves dir (following links) and then
+   looks c up in the directory it reached; the extraction code resolves the same dir for its Confine check. The model therefore
+   walks dir once per entry: [Reached cur rest] = the real directory that exists and the names below it that do not. *)
+Definition lastc (p : path) : nat := last p 0.
 
-(* os.MkdirAll(p, mode): create what is missing below the real directory the walk reaches *)
+(* os.MkdirAll below the real directory the walk reached: what was created before a failure stays *)
 Fixpoint mkdirs (f : fs) (cur : path) (rest : path) (mode : nat) : fs * bool :=
   match rest with
   | [] => (f, true)
@@ -70,61 +66,69 @@ Fixpoint mkdirs (f : fs) (cur : path) (rest : path) (mode : nat) : fs * bool :=
               | None => mkdirs (put f (cur ++ [c]) (NDir mode)) (cur ++ [c]) r mode
               end
   end.
-(* what was created before a failure stays *)
-Definition mkdirall (f : fs) (p : path) (mode : nat) : fs * bool :=
-  match walk FUEL f [] p true with
-  | Reached cur [] => (f, match look f cur with Some (NDir _) => true | _ => false end)
-  | Reached cur rest => mkdirs f cur rest mode
-  | _ => (f, false)
-  end.
-
 Definition set_nth {A} (l : list A) (i : nat) (x : A) : list A := firstn i l ++ x :: skipn (S i) l.
-(* OpenFile(p, O_CREATE|O_WRONLY|O_TRUNC, mode) and the copy of the payload *)
-Definition openwrite (f : fs) (p : path) (content mode : nat) : option fs :=
-  match walk FUEL f [] p true with
-  | Reached q [] => match look f q with
-                    | Some (NFile i) => Some {| tree := tree f; inodes := set_nth (inodes f) i (content, snd (nth i (inodes f) (0, 0))) |}
-                    | _ => None end
-  | Reached cur [c] => match look f (cur ++ [c]) with
-                       | Some _ => None   (* a dangling link in the last position: open would create its target; Confine has refused it before *)
-                       | None => Some {| tree := tree f ++ [(cur ++ [c], NFile (length (inodes f)))]; inodes := inodes f ++ [(content, mode)] |}
-                       end
-  | _ => None
-  end.
-Definition symlink (f : fs) (ab : bool) (tgt : path) (p : path) : option fs :=
-  match walk FUEL f [] p false with
-  | Reached cur [c] => match look f (cur ++ [c]) with Some _ => None | None => Some (put f (cur ++ [c]) (NSym ab tgt)) end
-  | _ => None
-  end.
-Definition hardlink (f : fs) (old : path) (p : path) : option fs :=
-  match walk FUEL f [] old false with
-  | Reached o [] =>
-    match look f o with
-    | Some (NDir _) | None => None
-    | Some n => match walk FUEL f [] p false with
-                | Reached cur [c] => match look f (cur ++ [c]) with Some _ => None | None => Some (put f (cur ++ [c]) n) end
-                | _ => None end
-    end
-  | _ => None
+(* does the node at q, taken as the last step of a stat, lead to a directory *)
+Definition leads_to_dir (f : fs) (q : path) : bool :=
+  match look f q with
+  | Some (NDir _) => true
+  | Some (NSym ab tgt) => match walk FUEL f (if ab then [] else parent q) tgt true with
+                          | Reached d [] => match look f d with Some (NDir _) => true | _ => false end
+                          | _ => false end
+  | _ => false
   end.
 
 Inductive etype := TReg | TDir | TSym | TLink.
 Record entry := { ename : path; etyp : etype; labs : bool; lname : path; payload : nat; emode : nat }.
-Definition then_ (r : fs * bool) (g : fs -> option fs) : fs * bool :=
-  let '(f1, ok) := r in if ok then match g f1 with Some f2 => (f2, true) | None => (f1, false) end else (f1, false).
 Section X.
 Variables (root : path) (dmode : nat -> nat) (fmode : nat -> nat) (* recorded permission bits after mask and umask *) (pmode : nat) (* implicit parents *).
 Definition below_root (p : path) : bool := is_prefix root p && (length root <? length p).
+
+(* the final step of each kind of entry, in the real directory d *)
+Definition finish (f : fs) (d : path) (c : nat) (e : entry) (src : option node) : fs * bool :=
+  let q := d ++ [c] in
+  match etyp e with
+  | TReg => match look f q with
+            | None => ({| tree := tree f ++ [(q, NFile (length (inodes f)))]; inodes := inodes f ++ [(payload e, fmode (emode e))] |}, true)
+            | Some (NFile i) => ({| tree := tree f; inodes := set_nth (inodes f) i (payload e, snd (nth i (inodes f) (0, 0))) |}, true)
+            | Some _ => (f, false)       (* a directory; a symbolic link was refused by Confine *)
+            end
+  | TDir => match look f q with
+            | None => (put f q (NDir (dmode (emode e))), true)
+            | Some _ => (f, leads_to_dir f q)
+            end
+  | TSym => match look f q with None => (put f q (NSym (labs e) (lname e)), true) | Some _ => (f, false) end
+  | TLink => match src, look f q with Some n, None => (put f q n, true) | _, _ => (f, false) end
+  end.
+
+(* the source of a hard link: a clean path below the destination whose real directory lies in the destination; link(2) does not follow a final link *)
+Definition link_source (f : fs) (o : path) : option node :=
+  if negb (below_root o) then None else
+  match walk FUEL f [] (parent o) true with
+  | Reached cur [] => if is_prefix root cur then match look f (cur ++ [lastc o]) with Some (NDir _) | None => None | Some n => Some n end else None
+  | _ => None
+  end.
+
 Definition extract1 (f : fs) (e : entry) : fs * bool :=
   let p := clean (root ++ ename e) [] in
   if negb (below_root p) then (f, false) else
-  if negb (confine root f p (match etyp e with TReg => true | _ => false end)) then (f, false) else
-  match etyp e with
-  | TReg => then_ (mkdirall f (parent p) pmode) (fun f1 => openwrite f1 p (payload e) (fmode (emode e)))
-  | TDir => mkdirall f p (dmode (emode e))
-  | TSym => then_ (mkdirall f (parent p) pmode) (fun f1 => symlink f1 (labs e) (lname e) p)
-  | TLink => let o := clean (root ++ lname e) [] in
-             then_ (mkdirall f (parent p) pmode) (fun f1 => if below_root o && confine root f1 o false then hardlink f1 o p else None)
+  match walk FUEL f [] (parent p) true with
+  | Reached cur rest =>
+    if negb (is_prefix root (cur ++ rest)) then (f, false) else                       (* Confine: the real directory *)
+    let refused := match etyp e, rest with TReg, [] => match look f (cur ++ [lastc p]) with Some (NSym _ _) => true | _ => false end | _, _ => false end in
+    if refused then (f, false) else                                                    (* Confine: no writing through a final link *)
+    match etyp e, rest with
+    | TDir, _ :: _ =>                                                                  (* MkdirAll(p, recorded mode): every missing directory gets the entry's mode *)
+      let '(f1, ok) := mkdirs f cur (rest ++ [lastc p]) (dmode (emode e)) in (f1, ok)
+    | _, _ =>
+      let '(f1, ok) := mkdirs f cur rest pmode in
+      if negb ok then (f1, false) else
+      let d := cur ++ rest in
+      match look f1 d with
+      | Some (NDir _) => finish f1 d (lastc p) e (match etyp e with TLink => link_source f1 (clean (root ++ lname e) []) | _ => None end)
+      | _ => (f1, false)                                                               (* the entry's directory is a file *)
+      end
+    end
+  | _ => (f, false)
   end.
 Fixpoint extract (f : fs) (es : list entry) : fs * bool :=
   match es with
